@@ -30,6 +30,7 @@ MASKCFG = [
     {'mask_freqs': [0.25, 0.1, 0.04, 0.015, 0.006], 'mask_amp_mode': 'ratio_imf', 'nphases': 2, 'mask_amp': 2},
     {'mask_freqs': 0.12, 'mask_amp_mode': 'abs', 'nphases': 3, 'mask_step_factor': 3},
     {'mask_freqs': 0.3, 'mask_amp_mode': 'ratio_sig', 'nphases': 2, 'extrema_opts': {'pad_width': 1}},
+    {'mask_freqs': 0.3, 'mask_amp_mode': 'ratio_imf', 'nphases': 2, 'mask_amp': [1.5, 0.7, 1.2, 0.9, 1.0, 1.0, 1.0, 1.0, 1.0]},
     {'mask_freqs': 'zc', 'mask_amp_mode': 'ratio_imf', 'nphases': 3, 'envelope_opts': {'interp_method': 'pchip'},
      'extrema_opts': {'parabolic_extrema': True}, 'imf_opts': {'sd_thresh': 0.2}},
 ]
@@ -66,6 +67,8 @@ def cases(tier, seed):
             yield ('sift', 'fb', name, ci, seed)
         for mi in range(len(MASKCFG)):
             yield ('mask', 'fb', name, mi, seed)
+    # larger scope: a noise record long enough for the uncapped sift to find 9 or more IMFs
+    yield ('sift', 'gen', ('noise4096',), 0, seed)
     for name in VAR_SIGNALS[:b['var_signals']]:
         for cap in CAPS:
             for E in b['nens']:
@@ -90,6 +93,9 @@ def decode_case(c):
 def signal_of(case):
     if case[1] == 'fa':
         return signals.fa_signal(case[2], 4, case[4])
+    if case[1] == 'gen':
+        tab = signals.noise_table(case[4])
+        return np.concatenate([tab[i % 8] * (1 + 0.1 * i) for i in range(16)])
     return signals.fb_signal(case[2], case[4])
 
 
@@ -182,6 +188,8 @@ def check_mask(case):
     cfg = dict(MASKCFG[case[3]])
     if isinstance(cfg['mask_freqs'], list):
         cfg['mask_freqs'] = np.array(cfg['mask_freqs'])
+    if isinstance(cfg.get('mask_amp'), list) and case[4] % 2 == 0:
+        cfg['mask_amp'] = np.array(cfg['mask_amp'])
     tag = '%s mask cfg %r' % (describe(case, x), MASKCFG[case[3]])
     viols = []
     trans = 0
@@ -218,9 +226,10 @@ def check_mask(case):
             viols.append(('mask:prefix', '%s: max_imfs=%d gives %d columns, reference run has %d' % (tag, k, capped.shape[1], n)))
     X = x[:, None]
     mode = cfg['mask_amp_mode']
-    mamp = cfg.get('mask_amp', 1)
+    mamp0 = cfg.get('mask_amp', 1)
     for k in range(n):
         resid = X - full[:, :k].sum(axis=1)[:, None]
+        mamp = mamp0[k] if isinstance(mamp0, (list, tuple, np.ndarray)) else mamp0
         if mode == 'abs':
             amp = mamp
         elif mode == 'ratio_sig' or k == 0:
